@@ -393,6 +393,10 @@ func buildObject(r *Recipe, st *buildStats) (obj geojson.Object) {
 			obj = geojson.NewPoint(geometry.Point{X: 1, Y: 1})
 		}
 	}()
+	if r.Via == "world" {
+		// the exported package-level polygon every user shares
+		return geojson.NewPolygon(geometry.WorldPolygon)
+	}
 	if r.Via == "move" || r.Via == "literal" {
 		if o := buildDerived(r); o != nil {
 			return o
